@@ -1,6 +1,6 @@
 PROP = dict(
     id='C13', level='exploration',
-    pyvc=[],
+    pyvc=['contracts.c13'],
     finite=['finite.regex:oal_tokens'],
     bounded='bounded.c13',
     bounded_budget=dict(quick=45, thorough=420),
